@@ -22,7 +22,8 @@ BOUNDS = {
 }
 ASSUMPTIONS = ["cells are concrete numbers switched by symbolic flags decided up front: one location missing, one time missing, and one of {ordinary, constant forecasts, all-zero observations, forecast == observation}", "csv numbers are realised (one representative per path) for printing",
                "verif.input.get_input returns the in-memory inputs (file readers: C09/C10)"]
-STUBS = ["verif.input.get_input -> in-memory inputs"]
+STUBS = ["verif.input.get_input -> in-memory inputs", "matplotlib.pyplot -> recording stub (harness driver_plot); exceptions raised "
+         "inside or because of the stub are counted as not decided"]
 
 AXES = ["time", "leadtime", "leadtimeday", "location", "lat", "lon", "elev", "no", "year", "month", "week", "day",
         "timeofday", "dayofyear", "dayofmonth", "monthofyear", "threshold", "obs", "fcst"]
@@ -131,6 +132,60 @@ def h_csv(axes_per_metric, variants, small=False, with_missing_time=True):
     return fn
 
 
+ALL_DIAGRAMS = ["pithist", "obsfcst", "timeseries", "meteo", "qq", "autocorr", "autocov", "fss", "cond", "against", "scatter",
+                "change", "spreadskill", "taylor", "error", "freq", "roc", "droc", "droc0", "reliability", "discrimination",
+                "performance", "invreliability", "murphy", "bsdecomp", "igncontrib", "economicvalue", "marginal"]
+PLOT_TYPES = ["plot", "map", "rank", "maprank", "impact", "mapimpact"]
+
+
+def h_plot(n_types, variants, with_missing_time=False):
+    """The drawing code of every diagram / output type up to the pyplot
+    boundary (recording stub): Python- and NumPy-level exceptions only."""
+    def fn(S):
+        from symx import mplstub
+        drv = load.modules["verif.driver"]
+        inp = load.modules["verif.input"]
+        out = load.modules["verif.output"]
+        util = load.modules["verif.util"]
+        S.allow_realize(True)
+        S.messages_may_format_numbers()
+        names = ALL_DIAGRAMS + ["mae", "ets", "bs", "corr", "quantilescore", "pit"]
+        mi = S.choose("metric", len(names))
+        name = names[mi]
+        ptype = PLOT_TYPES[S.choose("type", n_types)] if name not in ALL_DIAGRAMS else "plot"
+        vi = S.choose("variant", len(variants))
+        ins = build_inputs(S, False, with_missing_time)
+        files = {"A.txt": ins[0], "B.txt": ins[1]}
+        stub = mplstub.Pyplot()
+        saved = (inp.get_input, out.mpl, util.mpl)
+        inp.get_input = lambda f: files[f]
+        out.mpl = stub
+        util.mpl = stub
+        argv = ["verif", "A.txt", "B.txt", "-m", name, "-type", ptype, "-f", "out.png"] + variants[vi]
+        code, crash = None, None
+        try:
+            try:
+                drv.run(argv)
+            except SystemExit as e:
+                code = e.code if e.code is not None else 0
+            except Exception as e:
+                from symx.explore import _where
+                import traceback
+                text = "%s: %s" % (type(e).__name__, e)
+                frames = traceback.extract_tb(e.__traceback__)
+                in_stub = any("mplstub" in fr.filename for fr in frames) or "Generic" in text or "_CallableOrObject" in text
+                if in_stub:
+                    S.note("stub limitation: %s" % text[:100])
+                    return          # the recording stub cannot stand in for matplotlib here: not decided
+                crash = "%s@%s" % (type(e).__name__, _where(e.__traceback__))
+        finally:
+            inp.get_input, out.mpl, util.mpl = saved
+        what = "-m %s -type %s %s" % (name, ptype, " ".join(variants[vi]))
+        S.prove("no-unhandled-exception-before-the-draw-calls", crash is None, detail="%s: %s" % (what.strip(), crash))
+        S.prove("error-exits-are-non-zero", code is None or code != 0, detail=what.strip())
+    return fn
+
+
 def harnesses(tier):
     thorough = tier == "thorough"
     variants = [[], ["-b", "below=", "-r", "1"], ["-agg", "median"], ["-r", "1,3", "-b", "within"]]
@@ -138,6 +193,9 @@ def harnesses(tier):
         variants += [["-agg", "0.9"], ["-b", "above=", "-r", "2"]]
     hs = [Harness("driver_csv_text", h_csv(len(AXES) if thorough else 4, variants if thorough else variants[:3], with_missing_time=thorough),
                   "every metric x axes x variants x dataset classes through driver.run to csv", path_budget_s=60, max_paths=400000)]
+    pvariants = [[], ["-r", "1,3"], ["-x", "location"]] + ([["-b", "below=", "-r", "1"], ["-x", "time"], ["-q", "0.1,0.9"]] if thorough else [])
+    hs.append(Harness("driver_plot", h_plot(len(PLOT_TYPES) if thorough else 3, pvariants, with_missing_time=thorough),
+                      "every diagram and output type up to the pyplot boundary (recording stub)", path_budget_s=60, max_paths=400000))
     if thorough:
         hs.append(Harness("driver_csv_text.tiny", h_csv(len(AXES), variants, small=True), "single time, single lead time, single location"))
     return hs
